@@ -115,6 +115,7 @@ static int do_start(reproc_t *p, jv *st, jv *exp, jv *v, int idx)
   const char *pth = j_str(o, "path", ""); op.redirect.path = pth[0] ? mp(pth) : NULL;
   long in = j_int(o, "input", -1);
   static uint8_t data[64]; if (in >= 0) { op.input.data = data; op.input.size = (size_t) in; } else if (in == -2) { op.input.size = 3; }
+  op.nonblocking = j_int(o, "nb", 0) != 0;
   op.stop.first.action = REPROC_STOP_KILL; op.stop.first.timeout = REPROC_INFINITE;
   jv *av = j_get(st, "argv");
   const char **argv = calloc((size_t) (av ? av->n : 0) + 1, sizeof *argv);
@@ -152,9 +153,10 @@ static int do_start(reproc_t *p, jv *st, jv *exp, jv *v, int idx)
         }
         for (int i = 0; i < 3; i++) j_push(cw, std[i] ? std[i] : j_mkstr("x"));
         /* parent ends, by ordinal */
-        for (int k = 1; k <= 8; k++) for (int i = 0; i < nown; i++) if (owned[i].fifo) { int seen = 0; for (int q = 0; q < nord; q++) if (ord_ino[q] == owned[i].ino && q + 1 == k) seen = 1; if (seen) j_push(pp, token(&owned[i], NULL, 0, 0)); }
-        for (int i = 0; i < nown; i++) if (!owned[i].fifo) j_push(pp, token(&owned[i], NULL, 0, 0));
-        j_put(obs, "cw", cw); j_put(obs, "cx", cx); j_put(obs, "pp", pp); j_put(obs, "cnb", j_mkint(cnb)); j_put(obs, "cexec", j_mkint(1));
+        jv *pnb = j_mkarr();   /* nonblocking mode of each parent end, same order as pp */
+        for (int k = 1; k <= 8; k++) for (int i = 0; i < nown; i++) if (owned[i].fifo) { int seen = 0; for (int q = 0; q < nord; q++) if (ord_ino[q] == owned[i].ino && q + 1 == k) seen = 1; if (seen) { j_push(pp, token(&owned[i], NULL, 0, 0)); j_push(pnb, j_mkint(owned[i].nb)); } }
+        for (int i = 0; i < nown; i++) if (!owned[i].fifo) { j_push(pp, token(&owned[i], NULL, 0, 0)); j_push(pnb, j_mkint(owned[i].nb)); }
+        j_put(obs, "cw", cw); j_put(obs, "cx", cx); j_put(obs, "pp", pp); j_put(obs, "pnb", pnb); j_put(obs, "cnb", j_mkint(cnb)); j_put(obs, "cexec", j_mkint(1));
         jv *ca = j_get(d, "argv");
         if (ca && ca->n) ca->a[0] = j_mkstr(unroot(ca->a[0]->s));
         j_put(obs, "cargv", slist(ca)); j_put(obs, "cenv", slist(j_get(d, "env")));
